@@ -8,6 +8,7 @@ package gohbase
 // for re-execution.
 
 import (
+	"bytes"
 	"context"
 	"errors"
 	"fmt"
@@ -92,7 +93,11 @@ func runSendBatch(s sbScript) sbResult {
 	cl.AddServer("s1")
 	cl.AddServer("s2")
 	cl.CreateTable("t", [][]byte{[]byte("m")}, []string{"s1", "s2"})
-	c := newSimClient(cl, RpcQueueSize(10), FlushInterval(time.Millisecond))
+	copts := []Option{RpcQueueSize(10), FlushInterval(time.Millisecond)}
+	if (len(fmt.Sprint(s.Scr.Out))+len(s.Scr.Srv)+len(s.Scr.Own)+s.Scr.Cancel.Round)%2 == 1 {
+		copts = append(copts, CompressionCodec("snappy")) // every other scenario over compressed cellblocks
+	}
+	c := newSimClient(cl, copts...)
 	for _, k := range []string{"a0", "n0"} { // establish both regions
 		g, _ := hrpc.NewGet(context.Background(), []byte("t"), []byte(k))
 		c.Get(g)
@@ -298,8 +303,20 @@ func runSendBatch(s sbScript) sbResult {
 	}
 	if isDone() {
 		out.allOK = allOK
-		for _, r := range res {
-			out.kinds = append(out.kinds, sbKind(r))
+		for i, r := range res {
+			k := sbKind(r)
+			// "the i-th result describes the i-th call and nothing else": a successful Get carries the cell of ITS row
+			if g, isGet := batch[i].(*hrpc.Get); isGet && k == "ok" {
+				gr, ok := r.Msg.(*pb.GetResponse)
+				var rr *hrpc.Result
+				if ok {
+					rr = hrpc.ToLocalResult(gr.GetResult())
+				}
+				if rr == nil || len(rr.Cells) != 1 || !bytes.Equal(rr.Cells[0].Row, g.Key()) || string(rr.Cells[0].Value) != "stored" {
+					k = fmt.Sprintf("ok-with-foreign-content(%v)", r.Msg)
+				}
+			}
+			out.kinds = append(out.kinds, k)
 		}
 	}
 	close(holdCh)
